@@ -13,7 +13,7 @@ from ..core import q, lst, natl, boolc
 
 ID = "C13"
 ORACLE = "Oracle.C13"
-PROPS = "Props/C13.v"
+PROPS = ["Props/C13.v", "Props/C13mes.v"]
 LEVEL = "proof"
 SHARD = 30
 SEEDS = {"quick": (0, 1, 4242), "thorough": (0, 1, 4242, 31337, 7, 987654321, 2024, 55555)}
